@@ -67,6 +67,29 @@ def sent_is_forgotten(ctx: Ctx, chk) -> None:
                     else:
                         chk.refute(rule, key, f"the removal is guarded by identity with `{norm(cur)}` but the flush writes `{sorted(sent)[0][:60]}`: when the entry was replaced while an earlier command was being written, the newer command is written, the guard (on the older object) fails, the entry stays parked and the same value is written again at the next wake", ctx.loc(f, cmp_))
     chk.notes["atom2_identity_guards"] = n  # no floor: a guard that lives in a removal helper is judged by WRITE-THEN-FORGET / ATOM-1
+    # everything the flush hands to send comes from the snapshot entry: an argument read from the live buffer object at
+    # write time (a cached wire string looked up by key, a flag) belongs to whatever is stored *now*, so a command
+    # replaced during an earlier write is written under the old entry's identity - the guard then fails, the entry
+    # stays parked and the value goes out twice (and the superseded value never)
+    for f in sb.flush_functions(ctx):
+        try:
+            fl = sb.analyse_flush(ctx, f)
+        except sb.BatchedFlush:
+            continue
+        mb_names = {p_ for p_ in f.params if "MessageBuffer" in norm(f.param_annotation(p_) or ast.Constant(value=""))} | {"message_buffer"}
+        for s_ in fl.sends:
+            call = sb.is_send(s_.ast)
+            if call is None:
+                continue
+            extra = list(call.args[1:]) + [kw.value for kw in call.keywords if kw.arg != "message_buffer"]
+            for a in extra:
+                chk.instance(rule)
+                key = fkey(f, a) + "::send-argument-from-snapshot"
+                live = [x for x in ast.walk(a) if isinstance(x, ast.Name) and x.id in mb_names]
+                if live:
+                    chk.refute(rule, key, f"the flush hands `{norm(a)[:70]}` to send: it is read from the live message buffer when the write happens, not from the snapshot entry being flushed - after a concurrent send for that key it belongs to the newer command, which is thus written while the older entry is the one compared and kept", ctx.loc(f, a))
+                else:
+                    chk.ok(rule, key, "does not read the live buffer", ctx.loc(f, a), sample=False)
 
 
 def asleep_during_flush(ctx: Ctx, chk) -> None:
